@@ -1568,7 +1568,7 @@ Section Handlers.
 
   Lemma trigger_event_J ev ns args : pres J anyeff (trigger_event c ev ns args).
   Proof.
-    unfold trigger_event. destruct (is_unhashable ev); [apply pres_raise|].
+    unfold trigger_event. destruct (is_unhashable ev && _); [apply pres_raise|].
     destruct (get_event_handler c ev ns args) as [[h args']|].
     - apply pres_bind; [apply call_with_retry_J|]. intros v. apply pres_ret.
     - destruct (get_namespace_handler c ns args) as [[methods args']|]; [|apply pres_ret].
@@ -2018,7 +2018,7 @@ Proof.
       * apply hp_ret. apply hp_raise. auto.
       * unfold set_binpkt. apply hp_modify. apply hp_raise. apply Inv_binpkt_aset; auto.
   - apply hp_bind. apply hp_lift.
-    destruct (if uses_binary c then decode loads payload else Err OtherError) as [r|x]; [|auto].
+    destruct (decode_any c loads payload) as [r|x]; [|auto].
     destruct (type_is (rp r) CONNECT); [apply handle_connect_Inv; auto|].
     destruct (type_is (rp r) DISCONNECT).
     { eapply hp_conseq; [apply handle_disconnect_spec; auto|]. intros ? ? ? P. apply (hd_inv _ _ _ _ P). }
@@ -2102,9 +2102,9 @@ Lemma send_packet_disconnect_ok c eio ns s :
 Proof.
   unfold send_packet, ctor. cbn [has_bytes]. rewrite andb_false_r.
   apply hp_bind. apply hp_lift. apply hp_bind. apply hp_lift.
-  unfold encode. cbn [ptype pdata pns pid]. cbn.
-  destruct eio as [e|]; [|apply hp_ret; auto].
-  unfold hp. rewrite send_pieces_run. auto.
+  unfold encode_pieces, encode. cbn [ptype pdata pns pid].
+  destruct (uses_binary c); cbn; (destruct eio as [e|]; [|apply hp_ret; auto]);
+    unfold hp; rewrite send_pieces_run; auto.
 Qed.
 
 Lemma api_disconnect_Inv c sid pns s :
